@@ -49,13 +49,18 @@ F_typed_r4  == Fam("typed_r4",  "typed", SP_tiny,        VK_SL,  TV,       {"b"}
 F_dict_d3   == Fam("dict_d3",   "dict",  SP_d3s, {"S","M","LM"}, {"dict"}, {"a"},         {},        FALSE, FALSE, PP_d3, 3, 0)
 F_typed_d3  == Fam("typed_d3",  "typed", SP_d3s, {"S","M","LM"}, {"parent"}, {},          {},        FALSE, FALSE, PP_d3, 3, 0)
 F_dict_num3 == Fam("dict_num3", "dict",  SP_n3,          VK_SL,  {"dict"}, {"0"},         {"0"},     TRUE, TRUE, PP_num, 3, 1)
+\* other JSON value types (no numeric probe segments: the path functions index into strings)
+PP_nonum == << <<"a">>, <<"b">>, <<"a","a">>, <<"a","b">>, <<"b","a">> >>
+SP_json == {<<"a">>, <<"a","b">>, <<"b">>}
+VK_json == {"S", "N", "T", "F", "X", "B", "E", "ME", "LE"}
+F_dict_json  == Fam("dict_json",  "dict",  SP_json, VK_json, {"dict"}, {"a"}, {"a"}, TRUE, TRUE, PP_nonum, 2, 1)
+F_typed_json == Fam("typed_json", "typed", SP_json, VK_json, TV,       {"b"}, {"a"}, TRUE, TRUE, PP_nonum, 2, 1)
 F_dict_t5   == Fam("dict_t5",   "dict",  SP_tiny,        {"S"},  {"dict"}, {"a"},         {"a"},     FALSE, FALSE, PP_ab, 5, 1)
 F_typed_t5  == Fam("typed_t5",  "typed", SP_tiny,        {"S"},  {"parent"}, {"b"},       {"a"},     FALSE, FALSE, PP_ab0, 5, 1)
 
-Fams_one == {F_dict_w2}
 Fams_quick == {F_dict_w2, F_dict_r3, F_typed_w2, F_typed_r3, F_dict_num2}
-Fams_thorough_a == {F_dict_r3m, F_dict_r3s, F_dict_r4, F_dict_d3, F_dict_num3, F_dict_t5}
-Fams_thorough_b == {F_typed_w2f, F_typed_w3, F_typed_r4, F_typed_d3, F_typed_t5}
+Fams_thorough_a == {F_dict_json, F_dict_r3m, F_dict_r3s, F_dict_r4, F_dict_d3, F_dict_num3, F_dict_t5}
+Fams_thorough_b == {F_typed_json, F_typed_w2f, F_typed_w3, F_typed_r4, F_typed_d3, F_typed_t5}
 Fams_ascoded == {Fam("ascoded", "dict", SP_red, VK_SL, {"dict"}, {"a"}, {"a"}, TRUE, TRUE, PP_ab, 3, 1)}
 
 ASSUME Emit => \A f \in Families : PrintT(<<"FAM", f.name, f.kind, ToJson(f.ppaths)>>)
